@@ -915,9 +915,12 @@ def oracle_fixture_cell(impl: Impl, model, tid, cell, nodes, names) -> tuple[str
         return "skip"
     if exp is None or not canon_wf(exp):
         return "skip"
-    with warnings.catch_warnings():
-        warnings.simplefilter("ignore")
-        text = cell.formula
+    try:
+        with warnings.catch_warnings():
+            warnings.simplefilter("ignore")
+            text = cell.formula
+    except Exception as e:  # noqa: BLE001  "reading a formula ... never fails for such expressions"
+        return ("render-raises", f"Cell.formula raised {type(e).__name__}: {e}")
     try:
         got = parse_text(text, reftexts)
     except ParseError as e:
